@@ -30,6 +30,8 @@ impl C07 {
 }
 
 const DIRECT_ENTRIES: [&str; 4] = ["read_ts_server_challenge", "read_challenge_message", "read_ts_validate", "gss_unwrapex"];
+/// entry point of each honest message of the direct fault space (the CHALLENGE comes in three layouts)
+const ENTRY_OF_MSG: [usize; 6] = [0, 1, 2, 3, 1, 1];
 const CERTS: [Cert; 19] = [
     Cert::A,
     Cert::B,
@@ -199,6 +201,14 @@ fn ts_variants() -> Vec<(String, Vec<u8>)> {
             v
         }),
     ];
+    // TSRequests of exactly 1499 / 1500 / 1501 / 3000 bytes (one link read takes at most 1500), after which the server is silent
+    for total in [1499usize, 1500, 1501, 3000] {
+        // 30 82 LL LL | a0 03 02 01 02 | a1 82 .. 30 82 .. 30 82 .. a0 82 .. 04 82 .. token
+        let overhead = der::seq(&[der::explicit(0, &der::integer(2)), der::explicit(1, &der::seq(&[der::seq(&[der::explicit(0, &der::octets(&vec![0x41; 1300]))])]))]).len() - 1300;
+        let token: Vec<u8> = tok.iter().cycle().take(total - overhead).copied().collect();
+        let msg = der::seq(&[der::explicit(0, &der::integer(2)), der::explicit(1, &der::seq(&[der::seq(&[der::explicit(0, &der::octets(&token))])]))]);
+        v.push((format!("TSRequest of exactly {} bytes (token of {} bytes)", msg.len(), token.len()), msg));
+    }
     // several negoTokens of which the first is (a prefix of) an NTLM message header
     let items = |toks: &[&[u8]]| der::seq(&[der::explicit(0, &der::integer(2)), der::explicit(1, &der::seq(&toks.iter().map(|t| der::seq(&[der::explicit(0, &der::octets(t))])).collect::<Vec<_>>()))]);
     let sig = b"NTLMSSP\0\x02\0\0\0\x01\x02";
@@ -300,7 +310,9 @@ impl Prop for C07 {
         let token = rn::challenge_message(&ServerCfg::windows_like());
         let sealed = vref::ntlm::SealCtx::new(&[7u8; 16], false).wrap(&[9u8; 40]);
         self.direct = Some(FaultSpace::new(
-            vec![Msg { name: "TSRequest(challenge)".into(), honest: ch }, Msg { name: "CHALLENGE".into(), honest: token }, Msg { name: "TSRequest(pubKeyAuth)".into(), honest: pk.clone() }, Msg { name: "sealed".into(), honest: sealed }],
+            vec![Msg { name: "TSRequest(challenge)".into(), honest: ch }, Msg { name: "CHALLENGE".into(), honest: token }, Msg { name: "TSRequest(pubKeyAuth)".into(), honest: pk.clone() }, Msg { name: "sealed".into(), honest: sealed },
+                Msg { name: "CHALLENGE without VERSION".into(), honest: rn::challenge_message(&ServerCfg { flags: rn::DEFAULT_FLAGS & !rn::F_VERSION, ..ServerCfg::windows_like() }) },
+                Msg { name: "CHALLENGE without VERSION, info before name".into(), honest: rn::challenge_message(&ServerCfg { flags: rn::DEFAULT_FLAGS & !rn::F_VERSION, layout: 1, ..ServerCfg::windows_like() }) }],
             Tier::Thorough,
         ));
         self.av_cases = av_alphabet();
@@ -341,7 +353,7 @@ impl Prop for C07 {
         }})
     }
     fn rule(&self) -> String {
-        "cases: [e2e-*] the real cssp_connect inside the real Connector::connect over real TLS against the reference CredSSP server whose CHALLENGE TSRequest carries every single deviation (byte x value set, 16/32-bit boundary fields at every offset in both byte orders, truncations, extensions), whose pubKeyAuth reply carries {00, FF, truncate} at every offset, an AV-pair alphabet (every id 0..0x0C, 0xFF, 0x100, 0x7FFF, 0x8000, 0xFFFF x declared lengths {0,1,2,8,0xFFFF} x present bytes x with/without timestamp x with/without EOL; target-info/target-name descriptors at their boundaries; every flag bit toggled), TSRequest shapes (empty/missing/double negoTokens, 3/63/64/65/256/1000 negoTokens items, well-formed target information of 4000..65519 bytes, TargetInfoMaxLen != TargetInfoLen, TargetName bytes that are not valid UTF-8 / UTF-16 with the Unicode flag set and cleared, correctly sealed final replies numbered 0..2^32-1 or carrying 0..200000-byte values, errorCode, indefinite and 2^31/2^32/2^63 lengths, 200-deep nesting, several negoTokens of which one is a 0..14-byte prefix of an NTLM message header, a primitive element declaring a length near 2^64 alone inside exactly fitting [0]..[4] wrappers at three depths) in both rounds, and 19 server certificates (RSA-2048/4096, EC P-256, Ed25519, critical unknown extension, 20-byte / 40-byte / negative serial, empty subject, and DER-edited ones: X.509 v1, version 4, GeneralizedTime, invalid UTCTime, non-zero unused bits, BMPString / T61String subject, duplicate / empty extensions) with checking on/off; [direct-*] the same inputs, every single deviation with all 256 byte values, and every byte string of length <=2 (<=3) plus 3..5 (..6) byte strings over 8 boundary bytes, fed directly to read_ts_server_challenge, Ntlm::read_challenge_message, read_ts_validate and gss_unwrapex; thorough adds all pairs of {00, FF, truncate} faults on the direct entries. Oracle: returns; no panic/abort/hang; allocation rule.".into()
+        "cases: [e2e-*] the real cssp_connect inside the real Connector::connect over real TLS against the reference CredSSP server whose CHALLENGE TSRequest carries every single deviation (byte x value set, 16/32-bit boundary fields at every offset in both byte orders, truncations, extensions), whose pubKeyAuth reply carries {00, FF, truncate} at every offset, an AV-pair alphabet (every id 0..0x0C, 0xFF, 0x100, 0x7FFF, 0x8000, 0xFFFF x declared lengths {0,1,2,8,0xFFFF} x present bytes x with/without timestamp x with/without EOL; target-info/target-name descriptors at their boundaries; every flag bit toggled), TSRequest shapes (empty/missing/double negoTokens, 3/63/64/65/256/1000 negoTokens items, well-formed target information of 4000..65519 bytes, TargetInfoMaxLen != TargetInfoLen, TargetName bytes that are not valid UTF-8 / UTF-16 with the Unicode flag set and cleared, correctly sealed final replies numbered 0..2^32-1 or carrying 0..200000-byte values, errorCode, indefinite and 2^31/2^32/2^63 lengths, 200-deep nesting, TSRequests of exactly 1499 / 1500 / 1501 / 3000 bytes, several negoTokens of which one is a 0..14-byte prefix of an NTLM message header, a primitive element declaring a length near 2^64 alone inside exactly fitting [0]..[4] wrappers at three depths) in both rounds, and 19 server certificates (RSA-2048/4096, EC P-256, Ed25519, critical unknown extension, 20-byte / 40-byte / negative serial, empty subject, and DER-edited ones: X.509 v1, version 4, GeneralizedTime, invalid UTCTime, non-zero unused bits, BMPString / T61String subject, duplicate / empty extensions) with checking on/off; [direct-*] the same inputs, every single deviation with all 256 byte values, and every byte string of length <=2 (<=3) plus 3..5 (..6) byte strings over 8 boundary bytes, fed directly to read_ts_server_challenge, Ntlm::read_challenge_message, read_ts_validate and gss_unwrapex; thorough adds all pairs of {00, FF, truncate} faults on the direct entries. Oracle: returns; no panic/abort/hang; allocation rule.".into()
     }
     fn assumptions(&self) -> Vec<String> {
         vec!["memory rule: single request > 1 MiB or peak > 16 MiB + 1024 x bytes received".into()]
@@ -418,8 +430,8 @@ impl Prop for C07 {
                 let (mi, d) = fs.get(i);
                 let mut bytes = fs.msgs[mi].honest.clone();
                 let changed = apply_dev(&mut bytes, &d.kind);
-                let r = run_direct(mi, &bytes);
-                Outcome::pass(format!("direct:{}:{}:{}", DIRECT_ENTRIES[mi], dev_class(&d), r), changed)
+                let r = run_direct(ENTRY_OF_MSG[mi], &bytes);
+                Outcome::pass(format!("direct:{}:{}:{}", DIRECT_ENTRIES[ENTRY_OF_MSG[mi]], dev_class(&d), r), changed)
             }
             "direct-pairs" => {
                 let fs = self.direct.as_ref().unwrap();
@@ -433,8 +445,8 @@ impl Prop for C07 {
                 let mut bytes = fs.msgs[mi].honest.clone();
                 let c1 = apply_dev(&mut bytes, &d1.kind);
                 let c2 = apply_dev(&mut bytes, &d2.kind);
-                let r = run_direct(mi, &bytes);
-                Outcome::pass(format!("direct-pairs:{}:{}", DIRECT_ENTRIES[mi], r), c1 && c2)
+                let r = run_direct(ENTRY_OF_MSG[mi], &bytes);
+                Outcome::pass(format!("direct-pairs:{}:{}", DIRECT_ENTRIES[ENTRY_OF_MSG[mi]], r), c1 && c2)
             }
             "direct-av" => {
                 let r = run_direct(1, &self.av_cases[i as usize].1);
